@@ -196,13 +196,20 @@ class Check:
             if gi >= 8:
                 self.say("note: %d more failure signatures not minimised" % (len(groups) - 8))
                 break
-            f = min(fs, key=lambda x: (len(x["ops"]), x.get("run", 0)))
-            rec = self.minimise(build, tmpdir, f, str(gi))
-            ok = self.confirm(build, tmpdir, rec, str(gi))
-            if not ok:
-                # fall back to the unminimised trace
-                rec = self.replay_record(f)
-                ok = self.confirm(build, tmpdir, rec, str(gi) + "u")
+            def replayable(x):
+                op = failing_op_of(x["ops"], x["step"]) or {}
+                return 0 if not (op.get("seed", 0) is None and op.get("op") == "anneal") else 1
+            cands = sorted(fs, key=lambda x: (replayable(x), len(x["ops"]), x.get("run", 0)))[:3]
+            ok = False
+            for ci, f in enumerate(cands):
+                rec = self.minimise(build, tmpdir, f, "%d_%d" % (gi, ci))
+                ok = self.confirm(build, tmpdir, rec, "%d_%d" % (gi, ci))
+                if not ok:
+                    # fall back to the unminimised trace
+                    rec = self.replay_record(f)
+                    ok = self.confirm(build, tmpdir, rec, "%d_%du" % (gi, ci))
+                if ok:
+                    break
             safe = "".join(c if c.isalnum() else "_" for c in sig)[:60]
             path = os.path.join(OUT, "replays", "%s-%d-%s.json" % (self.prop, self.seed, safe))
             rec["reproduced_in_fresh_process"] = ok
